@@ -29,15 +29,17 @@ CONSTANT Strict
 
 Trace == ndJsonDeserialize("trace.ndjson")
 
-VARIABLES l, F, cg, cp, rds
-vars == <<l, F, cg, cp, rds>>
+VARIABLES l, F, cg, cp, rds, fps
+vars == <<l, F, cg, cp, rds, fps>>
 
 E == Trace[l]
 Is(ev) == l <= Len(Trace) /\ E.ev = ev
 Consume == l' = l + 1 /\ TLCSet(1, l)
 
 NoFont == [read |-> FALSE]
-Init == l = 1 /\ F = NoFont /\ cg = <<>> /\ cp = <<>> /\ rds = Readings /\ TLCSet(1, 0)
+KLReadings == {"min", "over"} \X {"req", "opt"}
+FPReadings == {"nolig", "lig"}
+Init == l = 1 /\ F = NoFont /\ cg = <<>> /\ cp = <<>> /\ rds = KLReadings /\ fps = FPReadings /\ TLCSet(1, 0)
 
 CandT(T) == IF T.present THEN Cand(T.sl) ELSE {0}
 CandOf(c, T, tag) == IF tag \in DOMAIN c THEN c[tag] ELSE CandT(T)
@@ -47,6 +49,7 @@ Reset ==
   /\ Is("reset")
   /\ F' = E.font /\ cg' = <<>> /\ cp' = <<>>
   /\ rds' = rds            \* a reading is a trait of the implementation, not of a file: never reset
+  /\ fps' = FPReadings     \* (whether a font of equal non-zero widths gets ligatures: one answer per file)
   /\ Consume
 
 \* feature selection: in range, ascending, no duplicates, required feature, switches -
@@ -65,23 +68,34 @@ Find ==
                                         ELSE cp' = Narrow(cp, E.lang.tag, S) /\ cg' = cg
               ELSE /\ \A k \in 1..Len(E.results) : \E li \in C : Ex(li, E.results[k])
                    /\ UNCHANGED <<cg, cp>>
-  /\ UNCHANGED <<F, rds>> /\ Consume
+  /\ UNCHANGED <<F, rds, fps>> /\ Consume
+
+\* only the readings that can make a difference for this file are tried
+RelK == F.read /\ ~F.gpos.present /\ F.kern.present
+          /\ \E k \in 1..Len(F.kern.subs) : F.kern.subs[k].min /\ F.kern.subs[k].over
+RelL == F.read /\ ~F.gsub.present
+RelF == F.read /\ ~F.gsub.present /\ ~Proportional(F.widths)
+Canon(r) == <<IF RelK THEN r[1] ELSE "min", IF RelL THEN r[2] ELSE "req">>
 
 Layouts ==
   /\ Is("layout")
   /\ LET tag == E.lang.tag
-         CG  == CandOf(cg, EffGsub(F, "req"), tag)      \* (the language systems do not depend on the reading)
+         CG  == CandOf(cg, EffGsub(F, "req", "lig"), tag)   \* (the language systems do not depend on the reading)
          CP  == CandOf(cp, EffGpos(F, "min"), tag)
-         Ex(lg, lp, rd, o) == o = Layout(F, E.s, E.swg, E.swp, lg, lp, rd)
-         S   == {c \in CG \X CP \X rds : \A k \in 1..Len(E.outs) : Ex(c[1], c[2], c[3], E.outs[k])}
-     IN  /\ Len(E.outs) >= 1 /\ E.err = ""
+         RR  == {Canon(r) : r \in rds}
+         FP  == IF RelF THEN fps ELSE {"nolig"}
+         Ex(c, o) == o = Layout(F, E.s, E.swg, E.swp, c[1], c[2], <<c[3][1], c[3][2], c[4]>>)
+         All == CG \X CP \X RR \X FP
+         S   == {c \in All : \A k \in 1..Len(E.outs) : Ex(c, E.outs[k])}
+     IN  /\ HasCmap(F) /\ Len(E.outs) >= 1 /\ E.err = ""
          /\ IF Strict
               THEN /\ S # {}
                    /\ cg' = Narrow(cg, tag, {c[1] : c \in S})
                    /\ cp' = Narrow(cp, tag, {c[2] : c \in S})
-                   /\ rds' = {c[3] : c \in S}
-              ELSE /\ \A k \in 1..Len(E.outs) : \E c \in CG \X CP \X rds : Ex(c[1], c[2], c[3], E.outs[k])
-                   /\ UNCHANGED <<cg, cp, rds>>
+                   /\ rds' = {r \in rds : Canon(r) \in {c[3] : c \in S}}
+                   /\ fps' = IF RelF THEN {c[4] : c \in S} ELSE fps
+              ELSE /\ \A k \in 1..Len(E.outs) : \E c \in All : Ex(c, E.outs[k])
+                   /\ UNCHANGED <<cg, cp, rds, fps>>
   /\ UNCHANGED F /\ Consume
 
 \* apparatus check, never a verdict about go-sfnt: the independent implementation
@@ -89,7 +103,7 @@ Layouts ==
 XKern ==
   /\ Is("xkern")
   /\ F.kern.present /\ E.v = KernFold(F.kern.subs, E.l, E.r, "min")
-  /\ UNCHANGED <<F, cg, cp, rds>> /\ Consume
+  /\ UNCHANGED <<F, cg, cp, rds, fps>> /\ Consume
 
 Next == Reset \/ Find \/ Layouts \/ XKern
 Spec == Init /\ [][Next]_vars
